@@ -217,7 +217,9 @@ func (c *ctx) checkScale(a *scaleArtifact, m mutant) bool {
 	if excess > 0 {
 		cls := "alloc-exceeds-linear-bound:" + a.name
 		if a.typ != nil {
-			if w := walk(m.data, a.typ, a.tmpl); w.declaredShort {
+			// a byte string declares more than the input holds, or its (zero-filled)
+			// length prefix is itself cut short: the buffer is made before reading
+			if w := walk(m.data, a.typ, a.tmpl); w.declaredShort || (w.vkind == "compact-uint" && w.verdict == "short-partial") {
 				cls = "alloc-declared-bytes-length-preallocated"
 			}
 		}
